@@ -1048,3 +1048,6 @@ def exhaustive_note(tier, total):
     if tier != 'quick':
         subs.append('OSDD: every ordered unit triple within each named dimension (5.6 M) x %d values' % len(TRIPLE_VALUES))
     return {'exhaustive': False, 'exhaustive_subdomains': subs}
+
+
+RULE += '  Added after the seeding rounds: part engval-history (convert / change in place / convert again on one EngVal); in-place conversion of big-endian double and float32 arrays; the refusal clause is asserted for convert_array and convert_array_inplace too.'
